@@ -177,6 +177,7 @@ func (w *world) race(f []string) string {
 	baA := a.spec(ba)
 
 	s := sched.New()
+	s.Ignore = append(s.Ignore, "main.hangWatchdog") // the worker's watchdog sleeps in a loop; it never touches the tree
 	g := &gate{pos: pos, release: make(chan struct{})}
 	ta := s.Go("A", func() string { return a.run(w.w, g) })
 	if err := s.Settle(); err != nil {
